@@ -28,6 +28,8 @@ def analyse(doc):
     bp = pl.rows(doc, "/BunchProfile/data")
     wp = pl.rows(doc, "/WakePotential/data")
     es = doc["datasets"]["/EnergySpread/data"]["data"]
+    if not bp or not wp:
+        return None      # no wake potential recorded at all
     rho, W = bp[-1], wp[-1]
     dq, dp = z[1] - z[0], e[1] - e[0]
     steps = doc["attrs"]["/Info/Parameters@StepsPerTs"]
@@ -116,6 +118,9 @@ def run(res, tier):
             res.violate("C05/run-failed", case, "rc=%s %s" % (r["rc"], r["log"][-200:]), replay=rp)
             continue
         m = analyse(doc)
+        if m is None:
+            res.violate("C05/%s/no-wake-recorded" % imp, case, "the run with an impedance selected recorded no wake potential", replay=rp)
+            continue
         table.append((case, m))
         trivial = m["D"] < 0.05
         res.eval(case, pl.chash(case, m["residual"], m["D"]), trivial=trivial)
